@@ -12,7 +12,7 @@ CHECKS = {
  'C03': ('model_checking', "Sched.tla invariants on every assignment and after every cycle (partition, traits, server state, lease lifetime incl. renewals and re-assignment across partitions); recorded traces of the real Cell judged by the same clauses.", '6/C03', SCHED_NOTE),
  'C04': ('model_checking', "Sched.tla with rack/pod/cell limits under eviction pressure model-checked; affinity limits and stored counters recomputed by TLC from the leaves on every recorded post-cycle state of the real Cell.", '6/C04', SCHED_NOTE),
  'C05': ('model_checking', "Sched.tla identity invariants (unique, in range, placed has one, pending none, available set exact) model-checked over grow/shrink/delete/blacklist/eviction histories and judged on every recorded post-cycle state.", '6/C05', SCHED_NOTE),
- 'C07': ('model_checking', "Sched.tla: displacement of an entitled running instance needs a gainer strictly ahead in the captured queue; model-checked with all queue interleavings, and judged on (pre, captured queue, post) of every recorded cycle.", '6/C07', SCHED_NOTE),
+ 'C07': ('model_checking', "Sched.tla: displacement of an entitled running instance needs a gainer strictly ahead in the captured queue; model-checked with all queue interleavings, and judged on (pre, captured queue, post) of every recorded cycle, incl. focused histories with a pending lease renewal on a server that is frozen before the cycle serves it.", '6/C07', SCHED_NOTE),
  'C08': ('model_checking', "Sched.tla with a clock: retention keep/expire, frozen keep/no-new, blacklist, for every ordering of down-since, timeout and cycle time within the bounds; same clauses on recorded cycles of the real Cell and of the real Master (L2: presence-driven transitions, server-state events, the state record published in /placement/<server> = C08.stateRecord). Down-times and unschedule marks are the observer's, not the code's fields.", '6/C08', SCHED_NOTE),
 }
 MASTER_NOTE = ("Trusted: TLC 1.8, harness/zkfake.py (kazoo-shaped in-memory ZooKeeper), the projections in harness/master_l2.py. "
